@@ -1,1 +1,20 @@
-/- C11 — property theorems (stub: the slice is not built yet). -/
+import GB.C11.Model
+import GB.Generated.Facts
+/-
+  C11 — property theorems.
+-/
+open GB GB.C11
+
+/-- Facts tie: the statement skeletons regenerated from the sources are the model's programs. -/
+theorem C11_facts_pattern :
+    GB.Generated.c11PatternUpdate = patternProgs.update.map Instr.tag ∧
+    GB.Generated.c11PatternClose = patternProgs.close.map Instr.tag ∧
+    GB.Generated.c11PatternWatch = patternProgs.watch.map Instr.tag ∧
+    GB.Generated.c11PatternLookup = patternProgs.lookupP.map Instr.tag := by decide
+
+theorem C11_facts_service :
+    GB.Generated.c11ServiceUpdate = serviceProgs.update.map Instr.tag ∧
+    GB.Generated.c11ServiceClose = serviceProgs.close.map Instr.tag ∧
+    GB.Generated.c11ServiceWatch = serviceProgs.watch.map Instr.tag ∧
+    GB.Generated.c11ServiceLookup = serviceProgs.lookupS.map Instr.tag ∧
+    GB.Generated.c11ServiceLookupHTTP = serviceProgs.lookupS.map Instr.tag := by decide
